@@ -70,6 +70,8 @@ class FakeFS(object):
     def cp(self, src, dst, recurse=False):
         self.log.append(("cp", str(src), str(dst), recurse))
         self._tick(self.log[-1])
+        if getattr(self, "before_cp_hook", None) is not None:
+            self.before_cp_hook(str(src), str(dst))
         s, d = self._resolve(src), self._resolve(dst)
         if not os.path.exists(s):
             raise FakeDbfsError("java.io.FileNotFoundException: %s" % src)
